@@ -619,6 +619,88 @@ mod eventjson {
 	}
 }
 
+mod globset {
+	use super::*;
+	use ignore_files::IgnoreFile;
+	use std::{ffi::OsString, path::{Path, PathBuf}};
+	use watchexec::filter::Filterer;
+	use watchexec_events::{Event, FileType, Priority, Tag};
+	use watchexec_filterer_globset::GlobsetFilterer;
+
+	fn strs(v: &Value) -> Vec<String> {
+		v.as_array().unwrap().iter().map(|x| x.as_str().unwrap().to_string()).collect()
+	}
+
+	fn rel(base: &Path, comps: &Value) -> PathBuf {
+		let mut p = base.to_path_buf();
+		for c in comps.as_array().unwrap() {
+			p.push(c.as_str().unwrap());
+		}
+		p
+	}
+
+	pub async fn run(case: &Value, scratch: &Path) -> Value {
+		let tmp = tempfile::tempdir_in(scratch).unwrap();
+		let origin = tmp.path().canonicalize().unwrap().join("proj");
+		for d in ["test/sub", "tests/sub"] {
+			std::fs::create_dir_all(origin.join(d)).unwrap();
+		}
+		let mut ignore_files = Vec::new();
+		let lines = strs(&case["ignorefile"]);
+		if !lines.is_empty() {
+			let path = origin.join(".ignore");
+			std::fs::write(&path, lines.join("\n") + "\n").unwrap();
+			ignore_files.push(IgnoreFile { path, applies_in: Some(origin.clone()), applies_to: None });
+		}
+		let whitelist: Vec<PathBuf> = case["whitelist"].as_array().unwrap().iter().map(|w| rel(&origin, w)).collect();
+		let exts: Vec<OsString> = if case["exts"].as_bool().unwrap() { vec!["o".into()] } else { vec![] };
+		let filterer = match GlobsetFilterer::new(
+			&origin,
+			strs(&case["filters"]).into_iter().map(|f| (f, None)),
+			strs(&case["ignores"]).into_iter().map(|f| (f, None)),
+			whitelist,
+			ignore_files,
+			exts,
+		)
+		.await
+		{
+			Ok(f) => f,
+			Err(e) => return json!({"error": e.to_string()}),
+		};
+		let dirs = [vec!["test"], vec!["test", "sub"], vec!["tests", "sub"]];
+		let verdicts: Vec<Value> = case["expect"]
+			.as_array()
+			.unwrap()
+			.iter()
+			.map(|e| {
+				let tags: Vec<Tag> = e["ev"]
+					.as_array()
+					.unwrap()
+					.iter()
+					.map(|p| {
+						let comps: Vec<&str> = p["path"].as_array().unwrap().iter().map(|c| c.as_str().unwrap()).collect();
+						let is_dir = dirs.iter().any(|d| *d == comps);
+						Tag::Path {
+							path: rel(&origin, &p["path"]),
+							file_type: if p["ft"] == "known" {
+								Some(if is_dir { FileType::Dir } else { FileType::File })
+							} else {
+								None
+							},
+						}
+					})
+					.collect();
+				let event = Event { tags, metadata: Default::default() };
+				match filterer.check_event(&event, Priority::Normal) {
+					Ok(b) => json!(b),
+					Err(e) => json!(e.to_string()),
+				}
+			})
+			.collect();
+		json!({"pass": verdicts})
+	}
+}
+
 fn main() {
 	let args: Vec<String> = std::env::args().collect();
 	let kind = args[1].clone();
@@ -695,6 +777,7 @@ fn main() {
 							"ignore" => ignore::run(case, &scratch).await,
 							"cliflags" => cliflags::run(case, &scratch).await,
 							"signals" => signals::run(case),
+							"globset" => globset::run(case, &scratch).await,
 							"paths" => paths::run(case),
 							"eventjson" => eventjson::run(case),
 							other => panic!("unknown kind {other}"),
